@@ -333,27 +333,26 @@ size_t make_segmentation(size_t n, size_t start, size_t end, size_t epsilon, Fin
     if (end >= start + 2 && in(end - 1) != in(end - 2))
         add_point(in(end - 1), end - 1);
 
-    if (end < n) {
-        // When the input is segmented in chunks, the run of keys equal to x=in(end-1) may continue in the next chunk
-        // (which skips it). As above, we map the values x+1,...,in(run_end)-1 to the rank of the last occurrence of x.
-        auto run_end = end;
-        while (run_end < n && in(run_end) == in(end - 1))
-            ++run_end;
-        auto is_run = run_end > end || (end >= start + 2 && in(end - 1) == in(end - 2));
-        if (is_run && run_end < n) {
-            if constexpr (std::is_floating_point_v<K>) {
-                K next;
-                if ((next = std::nextafter(in(end - 1), std::numeric_limits<K>::infinity())) < in(run_end))
-                    add_point(next, run_end - 1);
-            } else {
-                if (in(end - 1) + 1 < in(run_end))
-                    add_point(in(end - 1) + 1, run_end - 1);
-            }
+    // When the input is segmented in chunks, the run of keys equal to x=in(end-1) may continue in the next chunks (which skip it).
+    auto run_end = end;
+    while (run_end < n && in(run_end) == in(end - 1))
+        ++run_end;
+
+    if (run_end < n && (run_end > end || (end >= start + 2 && in(end - 1) == in(end - 2)))) {
+        // As above, we map the values x+1,...,in(run_end)-1 to the rank of the last occurrence of x.
+        if constexpr (std::is_floating_point_v<K>) {
+            K next;
+            if ((next = std::nextafter(in(end - 1), std::numeric_limits<K>::infinity())) < in(run_end))
+                add_point(next, run_end - 1);
+        } else {
+            if (in(end - 1) + 1 < in(run_end))
+                add_point(in(end - 1) + 1, run_end - 1);
         }
     }
 
-    if (end == n) {
-        // Ensure values greater than the last one are mapped to n
+    if (run_end == n) {
+        // Ensure values greater than the last one are mapped to n. This also holds for a chunk followed only by duplicates
+        // of its last key, since the chunks made of those duplicates are skipped.
         if constexpr (std::is_floating_point_v<K>) {
             add_point(std::nextafter(in(n - 1), std::numeric_limits<K>::infinity()), n);
         } else {
